@@ -472,11 +472,11 @@ func (r *srvRun) step(st map[string]any, ev map[string]any) error {
 		r.pending[slot] = map[uint32]string{}
 		r.settle[slot] = map[uint32]bool{}
 		if err := c.Handshake(10 * time.Second); err != nil {
-			return fmt.Errorf("handshake: %w", err)
+			ev["nohandshake"] = true // observed
 		}
 		// either the server now waits for the login (past the door) or it refuses and closes
 		if err := c.WaitServerIdleOrDone(10 * time.Second); err != nil {
-			return err
+			ev["busy"] = true
 		}
 	case "login":
 		fields := []sim.F{sim.Fld(sim.FUserLogin, sim.Obfuscate([]byte(st["login"].(string)))), sim.Fld(sim.FUserPassword, sim.Obfuscate(bytesOf(st["pw"])))}
@@ -489,10 +489,10 @@ func (r *srvRun) step(st map[string]any, ev map[string]any) error {
 		id := r.send(slot, "login", sim.TLogin, fields...)
 		_, err := c.WaitFor(func(t sim.Tx) bool { return t.IsReply == 1 && t.ID == id }, 10*time.Second)
 		if err != nil && err != sim.ErrClosed {
-			return fmt.Errorf("login reply: %w", err)
+			ev["noreply"] = true // observed: the server neither answered nor closed in time
 		}
 		if err := c.WaitServerIdleOrDone(10 * time.Second); err != nil {
-			return err
+			ev["busy"] = true
 		}
 		if !c.ServerDone() {
 			r.ids[slot] = c.ID()
@@ -522,10 +522,10 @@ func (r *srvRun) step(st map[string]any, ev map[string]any) error {
 		id := r.loginID[slot]
 		_, err := c.WaitFor(func(t sim.Tx) bool { return t.IsReply == 1 && t.ID == id }, 10*time.Second)
 		if err != nil && err != sim.ErrClosed {
-			return fmt.Errorf("login reply: %w", err)
+			ev["noreply"] = true // observed: the server neither answered nor closed in time
 		}
 		if err := c.WaitServerIdleOrDone(10 * time.Second); err != nil {
-			return err
+			ev["busy"] = true
 		}
 		if !c.ServerDone() {
 			r.ids[slot] = c.ID()
@@ -543,7 +543,7 @@ func (r *srvRun) step(st map[string]any, ev map[string]any) error {
 			pt.open()
 		}
 		if !c.WaitServerDone(10 * time.Second) {
-			return fmt.Errorf("server did not finish a closed connection")
+			ev["stuck"] = true // observed: the handler of a closed connection did not finish
 		}
 	case "chatstorm":
 		return r.chatStorm(st, ev)
@@ -569,7 +569,7 @@ func (r *srvRun) step(st map[string]any, ev map[string]any) error {
 	case "close":
 		c.Close()
 		if !c.WaitServerDone(10 * time.Second) {
-			return fmt.Errorf("server did not finish a closed connection")
+			ev["stuck"] = true // observed: the handler of a closed connection did not finish
 		}
 	case "chat":
 		f := []sim.F{sim.Fld(sim.FData, bytesOf(st["msg"]))}
@@ -616,7 +616,8 @@ func (r *srvRun) step(st map[string]any, ev map[string]any) error {
 		id := r.send(slot, op, sim.TDisconnectUser, f...)
 		rep, err := c.WaitFor(func(t sim.Tx) bool { return t.IsReply == 1 && t.ID == id }, 10*time.Second)
 		if err != nil {
-			return fmt.Errorf("kick reply: %w", err)
+			// no reply (the requester's connection was closed, or nothing came): an observation, not a harness failure
+			rep.Err = 1
 		}
 		if rep.Err == 0 {
 			// the victim is closed about a second later; wait for its handler to finish (bounded)
